@@ -69,3 +69,28 @@ package client
 //@ func (*client.Cache).addEntry(c, tkt, authTime, startTime, endTime, renewTill, sessionKey) (r)
 //@   modifies entries(c.Entries)
 //@   ensures r.Ticket == tkt && r.SessionKey == sessionKey && r.EndTime == endTime && r.StartTime == startTime && r.AuthTime == authTime && r.RenewTill == renewTill
+
+// ---- property C11: the client's session table, ticket cache and each session are shared between goroutines.
+// Their contents are guarded by the mutex of the same object: arbitrary at every acquisition (other goroutines),
+// accessed only with the lock held, and a (ticket, key) pair is read inside one critical section.
+//@ type client.Cache
+//@   guards mux :: Entries
+//@ type client.sessions
+//@   guards mux :: Entries
+//@ type client.session
+//@   guards mux :: authTime, endTime, renewTill, tgt, sessionKey, sessionKeyExpiration, cancel
+
+// A cache hit returns the entry stored under the SPN at the time the lock was held: ticket and session key of one
+// entry, never a mixture.
+//@ func (*client.Cache).getEntry(c, spn) (e, ok)
+//@   acquires c.mux
+//@   pure
+//@   trusted_frame lock state only
+//@   ensures ok <==> atlock(present(c.Entries, spn))
+//@   ensures ok ==> e == atlock(c.Entries[spn])
+
+//@ func (*client.session).tgtDetails(s) (realm, tgt, key)
+//@   acquires s.mux
+//@   pure
+//@   trusted_frame lock state only
+//@   ensures tgt == atlock(s.tgt) && key == atlock(s.sessionKey)
